@@ -84,10 +84,12 @@ def binary_ops(d, d2):
 class Fails:
     def __init__(self):
         self.n = 0
+        self.bytag = {}
         self.bad = []          # (property, obligation id, detail)
 
     def check(self, prop, oid, ok, detail=None):
         self.n += 1
+        self.bytag[prop] = self.bytag.get(prop, 0) + 1
         if not ok:
             self.bad.append((prop, f"{prop}/{oid}", detail))
 
@@ -288,7 +290,7 @@ def unary_shard(args):
     system, mom, layouts, seed = args
     F = Fails()
     run_unary(F, system, mom, layouts, seed)
-    return F.n, F.bad
+    return F.n, F.bad, F.bytag
 
 
 def binary_shard(args):
@@ -296,7 +298,7 @@ def binary_shard(args):
     F = Fails()
     for s2, m1, m2 in pairs:
         run_binary(F, s1, s2, m1, m2, pairings, seed)
-    return F.n, F.bad
+    return F.n, F.bad, F.bytag
 
 
 def lattice(tier, seed):
